@@ -100,7 +100,8 @@ Section UB.
   Lemma ub_clauses : forall G cont1 cls, Forall (fun c => ubw (clause_body c)) cls -> cont_cns cont1 ->
     forall st l st', clauses_with (fun b => wc' b) cont1 cls st = Ok (l, st') ->
     forallb (fun c => match c with FClause _ _ names ctx body =>
-                        list_eqb String.eqb names (fvars ctx) && frag p body end) cls = true ->
+                        list_eqb String.eqb names (fvars ctx)
+                        && forallb (fun b => fchi_eqb (fbchi b) FPrd) ctx && frag p body end) cls = true ->
     forallb (fun c => match c with FClause _ _ _ ctx body => ws (compile_ctx ctx ++ G) body end) cls = true ->
     forall bb, In bb (fvc l) -> inG G (flat_map cl_nm cls) bb \/ In bb (fvt cont1).
   Proof.
@@ -228,6 +229,7 @@ Section UB.
       assert (HC : ubc (FCtor x args ty)).
       { intros G ty0' st c st' H0 Hf Hw bb Hb. rewrite cmp_unfold in H0. apply cmp_ctor_inv in H0.
         destruct H0 as [args' [ty0 [Hargs [Ety Ec]]]]. subst c. simpl in Hf, Hw.
+        apply andb_prop in Hf. destruct Hf as [_ Hf].
         apply fvt_xtor in Hb. eapply (ub_args G args HA); eauto. }
       split; [|exact HC].
       intros G cont st s0 st' H0 Hf Hw Hc bb Hb. rewrite wc_unfold in H0. unfold wc_ctor in H0.
